@@ -31,6 +31,9 @@ var concTemplates = map[string]string{
 	"h.html": `{{ x matches pat }}{{ y matches '^' ~ n }}{{ n in [1, 2, n] }}{{ n not in 1..3 }}{{ x starts with '<' }}{{ x ends with '>' }}` +
 		`{{ n + 1 - 2 * 3 / 4 // 5 % 6 ** 2 }}{{ n b-and 3 b-or 4 b-xor 1 }}{{ n == 1 or n != 2 and not (n < 3) }}{{ n >= 1 ? "a#{n}b" : {k: n}.k }}` +
 		`{{ [n, x][0] }}{{ x ~ y|raw }}{% set z = n %}{% do z %}{{ n is defined }}`,
+	// values shared by all callers (returned by a read-only user function): a list with spare capacity and a hash; nothing the
+	// library does with them may write to them
+	"m.html": `{{ shared()|merge([n, x])|join(',') }}|{{ shared()|length }}{% for v in shared() %}{{ v }}{% endfor %}|{{ sharedmap().k }}{{ sharedmap()|merge({k2: x})|keys|join(',') }}|{{ shared()|reverse|join('') }}{{ shared()|slice(1, 2)|join('') }}{{ shared()|sort|join('') }}`,
 	// every escaper, explicitly
 	"u.html": `{{ x|escape('url') }}|{{ y|escape('css') }}|{{ x|escape('html_attr') }}|{{ x|escape('js') }}|{{ y|escape('url') }}|{{ x|escape }}`,
 	// three levels of include; the innermost waits at the barrier (scheduler gate) until every caller of the round is inside
@@ -50,7 +53,7 @@ var concTemplates = map[string]string{
 }
 
 var concGated = []string{"j.html", "g_for.html", "g_block.html", "g_macro.html", "g_embed.html", "g_filter.html", "g_expr.js", "g_import.html", "g_use.css"}
-var concNames = []string{"a.html", "b.js", "c.css", "d.txt", "e.html", "f", "bad.html", "g.js.twig", "h.html", "i.html", "u.html"}
+var concNames = []string{"a.html", "b.js", "c.css", "d.txt", "e.html", "f", "bad.html", "g.js.twig", "h.html", "i.html", "u.html", "m.html"}
 
 // barrier: a blocking user function used as a scheduler gate - gate(r) returns when all n callers of round r have
 // arrived (or after a time-out, so that a caller that failed early cannot block the others for ever).
@@ -161,6 +164,10 @@ func init() {
 		}
 		mk := func(n int) *stick.Env {
 			bar := &barrier{n: n}
+			sharedList := append(make([]stick.Value, 0, 16), "home", "blog", "about")
+			sharedMap := map[string]stick.Value{"k": "K", "j": "J"}
+			shared := func(ctx stick.Context, a ...stick.Value) stick.Value { return sharedList }
+			sharedmap := func(ctx stick.Context, a ...stick.Value) stick.Value { return sharedMap }
 			gate := func(ctx stick.Context, a ...stick.Value) stick.Value {
 				if len(a) > 0 {
 					bar.wait(int(stick.CoerceNumber(a[0])))
@@ -170,6 +177,8 @@ func init() {
 			if c.Env == "core" {
 				e := stick.New(loader)
 				e.Functions["gate"] = gate
+				e.Functions["shared"] = shared
+				e.Functions["sharedmap"] = sharedmap
 				e.Filters["upper"] = func(ctx stick.Context, v stick.Value, a ...stick.Value) stick.Value {
 					return strings.ToUpper(stick.CoerceString(v))
 				}
@@ -178,6 +187,8 @@ func init() {
 			}
 			e := twig.New(loader)
 			e.Functions["gate"] = gate
+			e.Functions["shared"] = shared
+			e.Functions["sharedmap"] = sharedmap
 			return e
 		}
 		pick := func(g, r int) (string, string) {
